@@ -244,6 +244,41 @@ fn p_obj_ret_tmp_last() {
 }
 #[kani::proof]
 #[kani::unwind(14)]
+fn p_grp_odd_contexts() {
+    // contexts that are smaller / more aligned than a pointer: the group's container still is
+    // (instance, context, temporary storage) in that order — a C layout, not one the compiler picks
+    let x: u64 = kani::any();
+    let small: bool = kani::any();
+    if small {
+        let c: u32 = kani::any();
+        let b = CBox::from(Imp { v: x });
+        let wb = words(&b);
+        let g = group_obj!((b, c) as GLend);
+        let w = words(&g);
+        assert!(w[2] == wb[0] && w[3] == wb[1], "C04 group with a 4-byte context: instance directly after the vtable pointers");
+        assert!(w[4] as u32 == c, "C04 group with a 4-byte context: context directly after the instance (temporary storage last)");
+        core::mem::forget(g);
+        let b = CBox::from(Imp { v: x });
+        let wb = words(&b);
+        let o = trait_obj!((b, c) as Tlend);
+        let w = words(&o);
+        assert!(w[1] == wb[0] && w[2] == wb[1] && w[3] as u32 == c, "C04 object with a 4-byte context: instance, context, temporary storage");
+        core::mem::forget(o);
+    } else {
+        let c: u128 = kani::any();
+        let b = CBox::from(Imp { v: x });
+        let wb = words(&b);
+        let g = group_obj!((b, c) as GLend);
+        let w = words(&g);
+        assert!(w[2] == wb[0] && w[3] == wb[1], "C04 group with a 16-byte context: instance directly after the vtable pointers");
+        assert!(w[4] == c as u64 as usize && w[5] == (c >> 64) as u64 as usize, "C04 group with a 16-byte context: context directly after the instance");
+        core::mem::forget(g);
+    }
+    kani::cover!(small, "u32 context");
+    kani::cover!(!small, "u128 context");
+}
+#[kani::proof]
+#[kani::unwind(14)]
 fn p_obj_ret_tmp_size() {
     // the temporary storage is exactly one borrowed child object INCLUDING its copy of the context:
     // vtable pointer + instance reference + context
